@@ -20,7 +20,7 @@ char* g_arena_raw; char* g_arena;
 std::vector<int> g_by_res[NRES];
 bool g_used[NSLOTS]; size_t g_slot_size[NSLOTS];
 unsigned g_next_residue; bool g_realloc_inplace; bool g_realloc_fail;
-int g_node_live;
+int g_node_live; bool g_node_fail;
 
 int slot_of(void* p) { return (int)(((char*)p - g_arena) / SLOT); }
 void* arena_alloc(size_t size) {
@@ -47,7 +47,7 @@ struct ArenaAlloc : TestMemoryAllocator {
     ArenaAlloc(const char* n, const char* a, const char* f) : TestMemoryAllocator(n, a, f) {}
     char* alloc_memory(size_t size, const char*, size_t) CPPUTEST_OVERRIDE { return (char*)arena_alloc(size); }
     void free_memory(char* m, size_t, const char*, size_t) CPPUTEST_OVERRIDE { arena_free(m); }
-    char* allocMemoryLeakNode(size_t size) CPPUTEST_OVERRIDE { g_node_live++; return (char*)malloc(size); }
+    char* allocMemoryLeakNode(size_t size) CPPUTEST_OVERRIDE { if (g_node_fail) return NULLPTR; g_node_live++; return (char*)malloc(size); }
     void freeMemoryLeakNode(char* m) CPPUTEST_OVERRIDE { g_node_live--; free(m); }
 };
 ArenaAlloc* g_allocs[3];
@@ -119,8 +119,16 @@ int run_case(Reader& r, bool& nontrivial, std::string& desc) {
             int kind = (int)r.below(3); size_t size = r.below(4) == 0 ? (r.below(8) == 0 ? r.below(4001) : r.below(301)) : r.below(24);
             int file = (int)r.below(4), line = (int)r.below(1000); bool separate = r.flag();
             g_next_residue = r.below(3) ? r.below(4) : r.below(73);   // mostly a few buckets: long chains
+            g_node_fail = separate && r.below(24) == 1;                // fault: the separate bookkeeping record cannot be allocated
             char* p = det->allocMemory(g_allocs[kind], size, FILES[file], (size_t)line, separate);
-            what = sfmt("alloc(%s,%zu,%s:%d,%s,res%u)", KIND_NAME[kind], size, FILES[file], line, separate ? "sep" : "inl", g_next_residue);
+            what = sfmt("alloc(%s,%zu,%s:%d,%s,res%u%s)", KIND_NAME[kind], size, FILES[file], line, separate ? "sep" : "inl", g_next_residue, g_node_fail ? ",record-fault" : "");
+            if (g_node_fail) {   // a request that cannot be satisfied: NULL, nothing tracked, nothing kept
+                g_node_fail = false; nontrivial = true; verif::cls("alloc-record-fault");
+                V_CHECK(p == NULLPTR, "C04:fault-alloc-not-null", "%s returned a block although its record could not be allocated", what.c_str());
+                desc += what + ";";
+                if (int rc = totals_ok(what.c_str())) return rc;
+                continue;
+            }
             V_CHECK(p != NULLPTR, "C04:alloc-null", "%s returned NULL", what.c_str());
             V_CHECK(model.find(p) == model.end(), "C04:alias", "%s returned an address that is still outstanding", what.c_str());
             model[p] = Rec{size, seq++, file, line, kind, cur, stage, separate}; live.push_back(p); chain_add(p);
@@ -136,8 +144,20 @@ int run_case(Reader& r, bool& nontrivial, std::string& desc) {
             char* p = live[r.below((uint32_t)live.size())]; Rec rec = model[p];
             size_t nsize = r.below(4) == 0 ? (r.below(8) == 0 ? r.below(4001) : r.below(301)) : r.below(24); int file = (int)r.below(4), line = (int)r.below(1000);
             g_realloc_inplace = r.flag(); g_next_residue = r.below(3) ? r.below(4) : r.below(73);
-            what = sfmt("realloc(#%u,%zu,%s)", rec.number, nsize, g_realloc_inplace ? "inplace" : "move");
+            int fault = r.below(10) == 1 ? 1 + (int)r.below(2) : 0;    // 1: the platform realloc fails, 2: the new separate record cannot be allocated
+            if (fault == 2 && !rec.separate) fault = 1;
+            g_realloc_fail = fault == 1; g_node_fail = fault == 2;
+            what = sfmt("realloc(#%u,%zu,%s%s)", rec.number, nsize, g_realloc_inplace ? "inplace" : "move", fault == 1 ? ",realloc-fault" : fault == 2 ? ",record-fault" : "");
             char* q = det->reallocMemory(g_allocs[rec.kind], p, nsize, FILES[file], (size_t)line, rec.separate);
+            g_realloc_fail = false; g_node_fail = false;
+            if (fault) {   // a failed reallocation: NULL, and the old block is still valid and still tracked exactly as before
+                nontrivial = true; verif::cls(fault == 1 ? "realloc-fault" : "realloc-record-fault");
+                V_CHECK(q == NULLPTR, "C04:fault-realloc-not-null", "%s returned a block", what.c_str());
+                desc += what + ";";
+                V_CHECK(rep.calls == calls_before, "C04:reporter", "%s: misuse callback: %.200s", what.c_str(), rep.last.c_str());
+                if (int rc = totals_ok(what.c_str())) return rc;
+                continue;
+            }
             V_CHECK(q != NULLPTR, "C04:realloc-null", "%s returned NULL", what.c_str());
             forget(p);
             V_CHECK(model.find(q) == model.end(), "C04:alias", "%s returned an address that is still outstanding", what.c_str());
@@ -173,6 +193,11 @@ int run_case(Reader& r, bool& nontrivial, std::string& desc) {
             det->markCheckingPeriodLeaksAsNonCheckingPeriod();
             for (auto& kv : model) if (kv.second.period == P_CHECKING) kv.second.period = P_ENABLED;
             verif::cls("mark");
+        } else if (k < 89 && !live.empty()) {                          // ---- forget one block without checking or releasing it (what MemoryLeakAllocator does)
+            char* p = live[r.below((uint32_t)live.size())]; Rec rec = model[p];
+            what = sfmt("forget(#%u)", rec.number);
+            det->removeMemoryLeakInformationWithoutCheckingOrDeallocatingTheMemoryButDeallocatingTheAccountInformation(g_allocs[rec.kind], p, rec.separate);
+            forget(p); arena_free(p); verif::cls("forget");
         } else if (k < 91 && !released.empty()) {                      // ---- release of an address that is not outstanding
             char* p = released[r.below((uint32_t)released.size())];
             if (model.find(p) != model.end()) { what = "stale-free(skipped: address reused)"; }
@@ -233,7 +258,7 @@ extern "C" void verif_init(void) {
 extern "C" int verif_case(const uint8_t* data, size_t size) {
     Reader r(data, size);
     memset(g_used, 0, sizeof g_used);
-    g_realloc_inplace = false; g_realloc_fail = false; g_next_residue = 0;
+    g_realloc_inplace = false; g_realloc_fail = false; g_node_fail = false; g_next_residue = 0;
     bool nontrivial = false; std::string desc;
     int rc = run_case(r, nontrivial, desc);
     verif::note_case(nontrivial, r.h, [&] { return desc.size() > 600 ? desc.substr(0, 600) + "..." : desc; });
